@@ -29,7 +29,19 @@ pub enum WAct {
     Lose { r: u8 },
     /// single: 0 = for everyone, else the reader the sample is written for; big = fragmented
     Write { single: u8, big: bool },
-    AckNack { r: u8, base: i64, set: Vec<i64> },
+    /// dst: "" no INFO_DST, "own" INFO_DST naming the writer's participant, "other" INFO_DST naming another participant
+    /// (the ACKNACK is then not for this writer at all); nbits / dirty: shape of the bitmap (see reader driver)
+    AckNack {
+        r: u8,
+        base: i64,
+        set: Vec<i64>,
+        #[serde(default)]
+        dst: String,
+        #[serde(default)]
+        nbits: u32,
+        #[serde(default)]
+        dirty: bool,
+    },
     HBTick,
     /// one firing of the SendRepairData timer of reader r
     Repair { r: u8 },
@@ -184,7 +196,7 @@ impl WExec {
                 assert_eq!(sn, sn_next);
                 self.common(json!({"ev":"Write","pid":1000 + sn,"single":single}), &sent, out);
             }
-            WAct::AckNack { r, base, set } => {
+            WAct::AckNack { r, base, set, dst, nbits, dirty } => {
                 let c = self.acknack_count.entry(*r).or_insert(0);
                 *c += 1;
                 let count = *c;
@@ -193,13 +205,29 @@ impl WExec {
                 let g = reader_guid(*r);
                 let mut prefix = [0u8; 12];
                 prefix.copy_from_slice(&g[0..12]);
-                let dg = wire::encode(
-                    &prefix,
-                    &[Sub::AckNack { reader: [g[12], g[13], g[14], g[15]], writer: [WRITER_GUID[12], WRITER_GUID[13], WRITER_GUID[14], WRITER_GUID[15]], set: wire::NumSet::from_set(*base, &members), count, final_flag: true }],
-                );
+                let mut list = wire::NumSet::from_set(*base, &members);
+                if *nbits > 0 {
+                    list.num_bits = (list.num_bits + *nbits).min(256);
+                    list.words.resize(((list.num_bits + 31) / 32) as usize, 0);
+                }
+                if *dirty && list.num_bits % 32 != 0 {
+                    if let Some(last) = list.words.last_mut() {
+                        *last |= u32::MAX >> (list.num_bits % 32);
+                    }
+                }
+                let ack = Sub::AckNack { reader: [g[12], g[13], g[14], g[15]], writer: [WRITER_GUID[12], WRITER_GUID[13], WRITER_GUID[14], WRITER_GUID[15]], set: list, count, final_flag: true };
+                let mut own = [0u8; 12];
+                own.copy_from_slice(&WRITER_GUID[0..12]);
+                let subs = match dst.as_str() {
+                    "own" => vec![Sub::InfoDst { prefix: own }, ack],
+                    // another participant, whose writer has the same entity id (entity ids repeat across participants)
+                    "other" => vec![Sub::InfoDst { prefix: [0xD5; 12] }, ack],
+                    _ => vec![ack],
+                };
+                let dg = wire::encode(&prefix, &subs);
                 let sent = self.rig.receive(&dg);
                 let set = &members;
-                self.common(json!({"ev":"AckNack","r":r,"base":base,"set":set}), &sent, out);
+                self.common(json!({"ev":"AckNack","r":r,"base":base,"set":set,"dst":dst}), &sent, out);
             }
             WAct::HBTick => {
                 let sent = self.rig.heartbeat_tick();
@@ -361,7 +389,8 @@ pub fn random_run(rng: &mut StdRng, n_events: usize) -> WRunSpec {
                 }
                 (b, set)
             };
-            acts.push(WAct::AckNack { r, base, set });
+            let dst = ["", "", "own", "other"][rng.gen_range(0..4)].to_string();
+            acts.push(WAct::AckNack { r, base, set, dst, nbits: if rng.gen_bool(0.3) { rng.gen_range(1..4) } else { 0 }, dirty: rng.gen_bool(0.4) });
             if rng.gen_bool(0.7) {
                 acts.push(WAct::RepairAll { r });
             }
@@ -412,9 +441,9 @@ pub fn hostile_specs(seed: u64, runs: usize) -> Vec<WRunSpec> {
             acts.push(WAct::Write { single: 0, big: false });
         }
         let last = n as i64 + 4;
-        acts.push(WAct::AckNack { r: 1, base: 1, set: vec![1, 2] });
+        acts.push(WAct::AckNack { r: 1, base: 1, set: vec![1, 2], dst: String::new(), nbits: 0, dirty: false });
         acts.push(WAct::RepairAll { r: 1 });
-        acts.push(WAct::AckNack { r: 1, base: last + 1, set: vec![] });
+        acts.push(WAct::AckNack { r: 1, base: last + 1, set: vec![], dst: String::new(), nbits: 0, dirty: false });
         acts.push(WAct::Clean);
         acts.push(WAct::Wait);
         acts.push(WAct::HBTick);
